@@ -10,7 +10,8 @@
 //       copy_row_as_vec(row, result), row < nrows, result.len() == ncols:  len == ncols, result[c] == at(row, c)
 //   A-COLUMN-MEAN         (specs/C03/dm_cov.rs): mu.len() == ncols, mu[c] == (left-fold sum of column c) / from(nrows)
 //
-// Every shape is FIXED per harness (macro instance).  T = f64.  Where the function only MOVES values the cells are
+// Every shape is FIXED per harness (macro instance); the row / column read by the row and column harnesses is a symbolic
+// index below that fixed bound (one call per function instead of one per row: a third of the CBMC time).  T = f64.  Where the function only MOVES values the cells are
 // unconstrained symbolic f64 bit patterns (NaN payloads included) compared with to_bits; where it ORDERS values they
 // are drawn from the mixed-sign constant set {-2.0, -0.5, 0.0, 1.5, 3.0}; where it does ARITHMETIC (column_mean, ab,
 // sum) every cell is one of two constants so that the exact result is a small dyadic number known by counting.
